@@ -109,3 +109,128 @@ def qto_math_shim():
         yield
     finally:
         qto.math = orig
+
+
+class SymUFloat:
+    """Affine model of uncertainties.UFloat for symbolic runs (DESIGN.md 3.1.7).
+
+    A value with ``nominal_value`` n and ``std_dev`` s >= 0.  Affine maps a*u + b give
+    (a*n + b, |a|*s); sums/differences/products of *independent* values combine the standard
+    deviations to first order (the square root is the engine's sqrt stub).  Nothing else of
+    the uncertainties package is modelled (no correlations, no formatting)."""
+
+    __slots__ = ("nominal_value", "std_dev")
+
+    def __init__(self, nominal_value, std_dev):
+        self.nominal_value = nominal_value
+        self.std_dev = std_dev
+
+    n = property(lambda self: self.nominal_value)
+    s = property(lambda self: self.std_dev)
+
+    @staticmethod
+    def _indep(v):
+        eng = _eng.CURRENT
+        q = v if isinstance(v, Q) else Q(v)
+        if q.c is not None:
+            import fractions
+
+            r = _exact_sqrt(q.c)
+            if r is not None:
+                return Q(r)
+        return eng.sqrt_of(q)
+
+    def __add__(self, o):
+        if hasattr(o, "_units"):
+            return NotImplemented
+        if isinstance(o, SymUFloat):
+            return SymUFloat(self.n + o.n, self._indep(self.s * self.s + o.s * o.s))
+        return SymUFloat(self.n + o, self.s)
+
+    __radd__ = __add__
+
+    def __neg__(self):
+        return SymUFloat(-self.n, self.s)
+
+    def __sub__(self, o):
+        if hasattr(o, "_units"):
+            return NotImplemented
+        if isinstance(o, SymUFloat):
+            return SymUFloat(self.n - o.n, self._indep(self.s * self.s + o.s * o.s))
+        return SymUFloat(self.n - o, self.s)
+
+    def __rsub__(self, o):
+        if hasattr(o, "_units"):
+            return NotImplemented
+        return SymUFloat(o - self.n, self.s)
+
+    def __mul__(self, o):
+        if hasattr(o, "_units"):
+            return NotImplemented
+        if isinstance(o, SymUFloat):
+            return SymUFloat(self.n * o.n, self._indep((o.n * self.s) ** 2 + (self.n * o.s) ** 2))
+        return SymUFloat(self.n * o, abs(o) * self.s)
+
+    __rmul__ = __mul__
+
+    def __truediv__(self, o):
+        if hasattr(o, "_units"):
+            return NotImplemented
+        if isinstance(o, SymUFloat):
+            raise _eng.Concretized("quotient of two uncertain values is outside the affine model")
+        return SymUFloat(self.n / o, self.s / abs(o))
+
+    def __pos__(self):
+        return self
+
+    def __abs__(self):
+        return SymUFloat(abs(self.n), self.s)
+
+    def __eq__(self, o):
+        if isinstance(o, SymUFloat):
+            return (self.n == o.n) & (self.s == o.s) if not isinstance(self.n == o.n, bool) or not isinstance(self.s == o.s, bool) else (self.n == o.n and self.s == o.s)
+        a, b = self.n == o, self.s == 0
+        if isinstance(a, bool) and isinstance(b, bool):
+            return a and b
+        from .q import And
+
+        return And(a, b)
+
+    __hash__ = None
+
+    def __copy__(self):
+        return SymUFloat(self.n, self.s)
+
+    def __deepcopy__(self, memo):
+        return SymUFloat(self.n, self.s)
+
+    def __repr__(self):
+        return f"SymUFloat({self.n!r}, {self.s!r})"
+
+
+def _exact_sqrt(fr):
+    from fractions import Fraction
+    from math import isqrt
+
+    if fr < 0:
+        return None
+    a, b = isqrt(fr.numerator), isqrt(fr.denominator)
+    if a * a == fr.numerator and b * b == fr.denominator:
+        return Fraction(a, b)
+    return None
+
+
+@contextlib.contextmanager
+def ufloat_stub():
+    """replace ufloat by the affine model where pint constructs uncertain values"""
+    import pint.compat as compat
+    import pint.facets.measurement.objects as mobj
+    import pint.pint_eval as pe
+
+    saved = (compat.ufloat, mobj.ufloat, pe._ufloat, pe._BINARY_OPERATOR_MAP["+/-"])
+    compat.ufloat = mobj.ufloat = pe._ufloat = SymUFloat
+    pe._BINARY_OPERATOR_MAP["+/-"] = SymUFloat
+    try:
+        yield
+    finally:
+        compat.ufloat, mobj.ufloat, pe._ufloat, pe._BINARY_OPERATOR_MAP["+/-"] = saved
